@@ -28,8 +28,9 @@ def gen_message(rng, source, real=False, allow_newline=True):
             parts.append(rng.choice(WORDS))
         elif r < 0.5:
             parts.append(rng.choice(PLACEHOLDERS))
-        elif r < 0.6 and source == "cli":
-            parts.append(rng.choice(["OLD", "NEW"]))
+        elif r < 0.6:
+            # the OLD/NEW shorthand is documented for the command line only; in a config template these are plain words
+            parts.append(rng.choice(["OLD", "NEW", "NEWS", "OLDER"]))
         elif r < 0.65 and allow_newline:
             parts.append("\n")
         else:
@@ -68,7 +69,7 @@ def expected_message(template, source):
 
 # (double quotes and backslashes in TOML *keys* are mangled by the third-party toml 0.10 parser before bumpver sees them)
 ODD_NAMES = ["with space.txt", "x'y.txt", "-dash.txt", "a b/c d.txt", "uni é.txt", "$dollar.txt", "semi;colon.txt",
-             "--update", "it's 'quoted'.txt", "`tick`.txt", "amp&ersand.txt"]
+             "--update", "it's 'quoted'.txt", "`tick`.txt", "amp&ersand.txt", "back\\slash.txt", "dq\"uote.txt", "ver\\sion\\x.txt"]
 
 
 class Argv:
@@ -93,7 +94,7 @@ class Argv:
         tag_msg = gen_message(rng, tag_source, self.real, allow_newline=not (ini and tag_source == "config")) if rng.random() < 0.8 else ""
         names = ["a.txt"]
         if not ini:
-            pool = [n for n in ODD_NAMES if not (self.real and n.startswith("-"))]
+            pool = [n for n in ODD_NAMES if not (self.real and (n.startswith("-") or "\\" in n or '"' in n))]
             names += rng.sample(pool, rng.randint(0, 3))
         return {"syntax": syntax, "msg_source": msg_source, "tag_source": tag_source, "commit_msg": commit_msg,
                 "tag_msg": tag_msg, "names": names, "pers": "git" if (self.real or rng.random() < 0.6) else "hg",
@@ -151,6 +152,8 @@ class Argv:
         specials = tuple(sorted(set(s for s in SPECIALS if s.strip() and (s in case["commit_msg"] or s in case["tag_msg"]))))[:6]
         ctx.nontriv((specials, case["msg_source"], case["tag_source"], case["pers"], tuple(sorted(case["names"]))))
         ctx.state((case["pers"], case["syntax"], case["msg_source"], case["tag_source"]))
+        if any(w in case["commit_msg"].split() or w in case["tag_msg"].split() for w in ("OLD", "NEW")):
+            ctx.probe("old_new_word_in_%s_template" % ("config" if "config" in (case["msg_source"], case["tag_source"]) else "cli"))
         for s in ("'", '"', "\\", "\n", "$HOME", "`id`"):
             if s in case["commit_msg"] or s in case["tag_msg"]:
                 ctx.probe("message_with_" + {"'": "single_quote", '"': "double_quote", "\\": "backslash", "\n": "newline",
